@@ -116,7 +116,7 @@ def write_evidence(prop, tier, seed, results, wall, extra_assumptions, violation
     hs = []
     vccs = sum(r.vccs for r in results)
     checked = sum(r.props_checked for r in results)
-    nontrivial = sum(1 for r in results if r.status == "hold" and r.covers_total > 0 and r.covers_sat == r.covers_total)
+    nontrivial = sum(r.covers_sat for r in results if r.status == "hold" and r.covers_total > 0 and r.covers_sat == r.covers_total)
     samples = []
     for r in results:
         s = r.spec
@@ -142,7 +142,7 @@ def write_evidence(prop, tier, seed, results, wall, extra_assumptions, violation
         "coverage": {
             "evaluations": max(checked, 1),
             "distinct_nontrivial": nontrivial,
-            "rule": "one evaluation = one assertion/overflow/bounds obligation of a harness decided by the SAT solver for ALL values of the harness' symbolic inputs within the stated bounds; a harness counts as distinct non-trivial when it held AND every kani::cover! reachability witness in it was satisfiable (non-vacuous)",
+            "rule": "one evaluation = one assertion/overflow/bounds obligation of a harness decided by the SAT solver for ALL values of the harness' symbolic inputs within the stated bounds; distinct_nontrivial counts the kani::cover! reachability witnesses (named regions of the input space: boundary values, branch taken / not taken) that the solver showed satisfiable inside harnesses that held; a harness with an unsatisfiable witness is reported inconclusive, never held",
             "samples": samples,
             "harnesses": hs,
             "exhaustive": False,
